@@ -76,6 +76,8 @@ inductive Term where
   | add (a b : Term)
   | sub (a b : Term)
   | mul (a b : Term)
+  | div (a b : Term)           -- the solver's integer division (truncation toward zero); it has no value when the divisor is 0,
+                               -- where `Int.tdiv` gives 0: the grid search skips those valuations
   | agg (id : String)          -- value of an aggregate atom (opaque here; C02 gives it meaning)
   deriving DecidableEq, Repr
 
@@ -85,6 +87,7 @@ def Term.eval (ρ : String → Int) : Term → Int
   | .add a b => a.eval ρ + b.eval ρ
   | .sub a b => a.eval ρ - b.eval ρ
   | .mul a b => a.eval ρ * b.eval ρ
+  | .div a b => Int.tdiv (a.eval ρ) (b.eval ρ)
   | .agg i => ρ i
 
 structure CmpLit where
